@@ -32,6 +32,7 @@ const (
 	kAfter
 	kEpoch
 	kDrain
+	kFund
 )
 
 type opdef struct {
@@ -56,6 +57,7 @@ type model struct {
 }
 
 type scen struct {
+	m0    model // model at the start state (zero for the plain fixture)
 	w     *chain.World
 	ops   []opdef
 	names []string
@@ -95,10 +97,11 @@ var opTable = []opdef{
 	{name: "->5s-after-month-expiry", kind: kAfter},
 	{name: "->next-epoch", kind: kEpoch},
 	{name: "creator-drains-funds(leaves 120)", kind: kDrain},
+	{name: "creator-receives-funds(+1000)", kind: kFund},
 }
 
 // build creates the world; startDay != 0 moves the chain to 2025-01-<startDay> 12:00:00 UTC first.
-func build(startDay int) *scen {
+func build(startDay int, prefix ...string) *scen {
 	s := &scen{plans: map[string]planstypes.Plan{}}
 	w := chain.NewWorld()
 	s.w = w
@@ -122,11 +125,29 @@ func build(startDay int) *scen {
 	for _, o := range s.ops {
 		s.names = append(s.names, o.name)
 	}
+	for _, name := range prefix {
+		idx := -1
+		for i, n := range s.names {
+			if n == name {
+				idx = i
+			}
+		}
+		if idx < 0 {
+			panic("c12: unknown prefix op " + name)
+		}
+		if st := s.Apply(idx); !st.Accepted || len(st.Viol) > 0 {
+			panic(fmt.Sprintf("fixture: prefix op %s: %+v", name, st))
+		}
+	}
+	if len(prefix) > 0 {
+		w.MarkFixture()
+		s.m0 = s.m
+	}
 	return s
 }
 
 func (s *scen) Ops() []string { return s.names }
-func (s *scen) Reset()        { s.w.Reset(); s.m = model{} }
+func (s *scen) Reset()        { s.w.Reset(); s.m = s.m0 }
 func (s *scen) Fork() func() {
 	r := s.w.Fork()
 	m := s.m
@@ -455,6 +476,18 @@ func (s *scen) Apply(op int) bfs.Step {
 		}
 		return step("use-cu", s.always("use-cu"))
 
+	case kFund:
+		res := w.Tx(func() error {
+			amt := sdk.NewCoins(sdk.NewCoin(w.TokenDenom(), sdk.NewInt(1000)))
+			if err := w.Keepers.BankKeeper.SubFromBalance(s.sink.Addr, amt); err != nil {
+				return err
+			}
+			return w.Keepers.BankKeeper.AddToBalance(s.cons.Addr, amt)
+		})
+		if !res.OK() {
+			return bfs.Step{Accepted: false, Obs: "fund-rejected"}
+		}
+		return step("fund", s.always("fund"))
 	case kDrain:
 		if bal0 <= drainLeave {
 			return bfs.Step{Accepted: false, Obs: "drain-nothing"}
@@ -500,15 +533,20 @@ func init() {
 		v := v
 		bfs.Register("c12/"+v.name, func() bfs.Scenario { return build(v.day) })
 	}
+	// start state: an auto-renewing subscription was renewed once and then removed because its creator could not pay
+	// the second renewal; the creator has received funds again
+	bfs.Register("c12/renewal-failed", func() bfs.Scenario {
+		return build(0, "buy(A,1m,autoRenew)", "creator-drains-funds(leaves 120)", "->5s-after-month-expiry", "->5s-after-month-expiry", "->next-epoch", "creator-receives-funds(+1000)")
+	})
 	reg.Register(reg.Check{Property: "C12", Level: "model_checking", Run: func(run *ev.Run) {
 		type job struct {
 			name     string
 			depth    int
 			deadline time.Duration
 		}
-		jobs := []job{{"may01", 5, 50 * time.Second}, {"jan31", 4, 20 * time.Second}}
+		jobs := []job{{"may01", 5, 50 * time.Second}, {"jan31", 4, 20 * time.Second}, {"renewal-failed", 4, 30 * time.Second}}
 		if ev.Tier() == "thorough" {
-			jobs = []job{{"may01", 7, 10 * time.Minute}, {"jan29", 5, 75 * time.Second}, {"jan30", 5, 75 * time.Second}, {"jan31", 5, 75 * time.Second}}
+			jobs = []job{{"may01", 7, 10 * time.Minute}, {"jan29", 5, 75 * time.Second}, {"jan30", 5, 75 * time.Second}, {"jan31", 5, 75 * time.Second}, {"renewal-failed", 6, 3 * time.Minute}}
 		}
 		exh := true
 		var bounds []string
@@ -520,7 +558,7 @@ func init() {
 			bounds = append(bounds, fmt.Sprintf("%s: depth %d", j.name, j.depth))
 		}
 		run.Set("exhaustive", exh)
-		run.Set("bound", fmt.Sprintf("all histories up to the stated depth over %d ops (buy A 1/2/12 months with/without auto-renewal, buy B = upgrade, advance purchase A 1m / B 2m, auto-renewal on / on with plan B / off, new version of plan A with another price and CU total, use 300 / 5000 CU, jump to 5 s before / 5 s after the month expiry, next epoch, creator drains funds); chain start dates %s; plans A (100, 10%% annual discount, 1000 CU) and B (200, no discount, 2000 CU)", len(opTable), strings.Join(bounds, ", ")))
+		run.Set("bound", fmt.Sprintf("all histories up to the stated depth over %d ops (buy A 1/2/12 months with/without auto-renewal, buy B = upgrade, advance purchase A 1m / B 2m, auto-renewal on / on with plan B / off, new version of plan A with another price and CU total, use 300 / 5000 CU, jump to 5 s before / 5 s after the month expiry, next epoch, creator drains funds, creator receives funds); a further start state follows a failed auto-renewal; chain start dates %s; plans A (100, 10%% annual discount, 1000 CU) and B (200, no discount, 2000 CU)", len(opTable), strings.Join(bounds, ", ")))
 		run.Assume("mock bank/account keeper of testutil/keeper; transactions atomic as in baseapp (emulated by the driver); one consumer who is also the creator/payer; the subscription is observed in its most recent version (changes scheduled for the next epoch start included); CU is consumed through Keeper.ChargeComputeUnitsToSubscription (the call relay payment makes)")
 	}})
 }
